@@ -2,6 +2,7 @@
 file is *not* assumed well-formed below the entity: every optional member may be absent."""
 from __future__ import annotations
 
+import gc
 import itertools
 import os
 import shutil
@@ -286,7 +287,7 @@ class SingleDeletionSweep(Contract):
             self._build(path)
             with h5py.File(path, "r") as f:
                 for k in f[list(f)[0]].attrs:
-                    for version in (None, 1.0, 2.0):
+                    for version in (None, 1.0, 2.0, 2.1):  # None: the constructor's default; 2.1 given explicitly is the same format, named by the writer
                         always.append({"kind": "project-attr", "attr": k, "version": version})
                 for name in self.NAMES:
                     node, _ = self._find(f, name)
@@ -593,3 +594,109 @@ class LoadStoredRoot(Contract):
 
 
 CONTRACTS = CONTRACTS + [RebuildRoot, LoadStoredRoot]
+
+
+class SurveyPairMetadataDeleted(Contract):
+    """A linked survey pair one of whose entities has lost its optional Metadata dataset: the file
+    opens, and the *other* entity -- which the missing item does not describe -- keeps its survey
+    description (channels, unit, loop radius, its component groups, its link) in the session and in
+    the file, whichever entity is looked at first and whatever the mode."""
+    target = "geoh5py/io/h5_reader.py::H5Reader.fetch_metadata"
+    variant = "survey-pair-metadata-deleted"
+    symbolic = False
+    has_native = True
+    props = ("C19", "C20")
+    bounded_scope = "an airborne TEM pair (channels, unit, loop radius, one component group) and a DC pair; the Metadata dataset of {receivers, transmitters} deleted with h5py; opened in {r, r+}; first read from {the stripped entity, the partner: its link to the stripped one, then its metadata}; the partner's metadata compared in the session and after another re-open (exhaustive)"
+
+    def native_cases(self, tier, rng):
+        for family in ("tem", "dc"):
+            for stripped in ("receivers", "transmitters"):
+                for mode in ("r", "r+"):
+                    for first in ("partner-link", "partner-metadata", "stripped"):
+                        yield {"family": family, "stripped": stripped, "mode": mode, "first": first}
+
+    def native_check(self, case):
+        import copy
+
+        import h5py
+
+        from geoh5py.workspace import Workspace
+
+        d = tempfile.mkdtemp()
+        try:
+            path = os.path.join(d, "pair.geoh5")
+            v = np.c_[np.arange(6.0), np.zeros(6), np.zeros(6)]
+            with Workspace.create(path) as ws:
+                if case["family"] == "tem":
+                    from geoh5py.objects import AirborneTEMReceivers, AirborneTEMTransmitters
+
+                    rx = AirborneTEMReceivers.create(ws, name="rx", vertices=v)
+                    tx = AirborneTEMTransmitters.create(ws, name="tx", vertices=v + 1.0)
+                    rx.transmitters = tx
+                    rx.channels = [1e-3, 2e-3, 4e-3]
+                    rx.unit = "Milliseconds (ms)"
+                    rx.loop_radius = 12.5
+                    dat = rx.add_data({"c1": {"values": np.arange(6.0)}, "c2": {"values": np.arange(6.0) + 1}, "c3": {"values": np.arange(6.0) + 2}})
+                    rx.add_components_data({"dBdt": dat})
+                else:
+                    from geoh5py.objects import CurrentElectrode, PotentialElectrode
+
+                    tx = CurrentElectrode.create(ws, name="tx", vertices=v, parts=np.zeros(6, dtype="int32"))
+                    tx.add_default_ab_cell_id()
+                    rx = PotentialElectrode.create(ws, name="rx", vertices=v + 2.0)
+                    rx.cells = np.c_[np.arange(5), np.arange(1, 6)].astype("uint32")
+                    rx.ab_cell_id = np.array([1, 2, 3, 4, 5], dtype="int32")
+                    rx.current_electrodes = tx
+                ids = {"receivers": rx.uid, "transmitters": tx.uid}
+
+            def plain(md):
+                def walk(x):
+                    if isinstance(x, dict):
+                        return {str(k): walk(v_) for k, v_ in sorted(x.items(), key=lambda kv: str(kv[0]))}
+                    if isinstance(x, (list, tuple, np.ndarray)):
+                        return [walk(v_) for v_ in x]
+                    return str(x) if not isinstance(x, (int, float, bool, type(None))) else x
+                return walk(copy.deepcopy(md))
+
+            partner_key = "transmitters" if case["stripped"] == "receivers" else "receivers"
+            with Workspace(path, mode="r") as ws:
+                ref = plain(ws.get_entity(ids[partner_key])[0].metadata)
+            with h5py.File(path, "r+") as f:
+                proj = f[list(f)[0]]
+                node = proj["Objects"]["{" + str(ids[case["stripped"]]) + "}"]
+                if "Metadata" not in node:
+                    return f"harness: the {case['stripped']} hold no Metadata dataset ({case})"
+                del node["Metadata"]
+            try:
+                ws = Workspace(path, mode=case["mode"])
+            except Exception as exc:
+                return f"the file no longer opens after the Metadata of the {case['stripped']} was deleted: {type(exc).__name__}: {exc} ({case})"
+            try:
+                partner = ws.get_entity(ids[partner_key])[0]
+                stripped = ws.get_entity(ids[case["stripped"]])[0]
+                link = {"tem": {"receivers": "receivers", "transmitters": "transmitters"}, "dc": {"receivers": "potential_electrodes", "transmitters": "current_electrodes"}}[case["family"]]
+                steps = {"partner-link": [lambda: getattr(partner, link[case["stripped"]]), lambda: partner.metadata, lambda: stripped.metadata],
+                         "partner-metadata": [lambda: partner.metadata, lambda: getattr(partner, link[case["stripped"]]), lambda: stripped.metadata],
+                         "stripped": [lambda: stripped.metadata, lambda: getattr(stripped, link[partner_key]), lambda: partner.metadata]}[case["first"]]
+                for st in steps:
+                    try:
+                        st()
+                    except Exception:
+                        pass  # what the stripped entity can still tell is its own business (and writes are refused in mode r)
+                now = plain(partner.metadata)
+                if now != ref:
+                    diff = [k for k in set(ref.get("EM Dataset", ref)) | set(now.get("EM Dataset", now)) if ref.get("EM Dataset", ref).get(k) != now.get("EM Dataset", now).get(k)]
+                    return f"the {partner_key} of a pair whose {case['stripped']} lost their Metadata: their own survey description changed in {sorted(diff)} ({case})"
+            finally:
+                ws.close()
+            with Workspace(path, mode="r") as ws:
+                later = plain(ws.get_entity(ids[partner_key])[0].metadata)
+                if later != ref:
+                    return f"the stored survey description of the {partner_key} was rewritten after the {case['stripped']} lost their Metadata ({case})"
+            return None
+        finally:
+            gc.collect()
+            shutil.rmtree(d, ignore_errors=True)
+
+
+CONTRACTS = CONTRACTS + [SurveyPairMetadataDeleted]
